@@ -541,6 +541,12 @@ fn is_a_block(stream: TokenStream) -> bool {
 /// Whether the tokens end the way an item does: in `{..}` or `;`
 fn ends_an_item(stream: TokenStream) -> bool {
     match stream.into_iter().last() {
+        // (the body of the item may itself be a `$body:block` fragment)
+        Some(proc_macro2::TokenTree::Group(group))
+            if group.delimiter() == proc_macro2::Delimiter::None =>
+        {
+            ends_an_item(group.stream())
+        }
         Some(proc_macro2::TokenTree::Group(group)) => {
             group.delimiter() == proc_macro2::Delimiter::Brace
         }
